@@ -122,7 +122,8 @@ def run(tier, seed):
     rep = common.Report(PROP, tier, seed)
     vdrive = common.build_harness()
     rng = random.Random(seed)
-    findings = [f for f in common.load_findings(PROP) if f.get("status") == "open"]
+    # (open findings that are listed for the record only, without an operation of the model, are not probed)
+    findings = [f for f in common.load_findings(PROP) if f.get("status") == "open" and f["feature"].startswith("op:")]
     excluded = {f["feature"].split(":", 1)[1] for f in findings if f["feature"].startswith("op:")}
     n, steps = (15000, 8) if tier == "quick" else (150000, 10)
     main = histories(rng, n, steps, excluded)
